@@ -6,7 +6,7 @@
 EXTENDS PlanState_MC
 CONSTANT D
 VARIABLE hist
-A(ev, c, p, f, b, r, pos) == [ev |-> ev, c |-> c, p |-> p, force |-> f, b |-> b, r |-> r, pos |-> pos]
+A(ev, c, p, f, b, r, pos) == [ev |-> ev, c |-> c, p |-> p, force |-> f, b |-> b, r |-> r, pos |-> pos, fault |-> 0]
 SimInit == Init /\ hist = <<>>
 SimNext ==
   \/ \E c \in ChoicePts, p \in Pkgs, f \in BOOLEAN : Add(c, p, f) /\ hist' = Append(hist, A("add", c, p, f, "-", "-", 0))
@@ -17,6 +17,8 @@ SimNext ==
   \/ \E c \in ChoicePts, b \in Blockers : DropBlocker(c, b) /\ hist' = Append(hist, A("dropblocker", c, "-", FALSE, b, "-", 0))
   \/ \E r \in Restrs : Hardref(r) /\ hist' = Append(hist, A("hardref", "-", "-", FALSE, "-", r, 0))
   \/ \E pos \in 0..MaxPlan : Backtrack(pos) /\ hist' = Append(hist, A("backtrack", "-", "-", FALSE, "-", "-", pos))
+  \/ \E pos \in 0..MaxPlan, stop \in 1..MaxPlan :
+        BacktrackCut(pos, stop) /\ hist' = Append(hist, [A("backtrack", "-", "-", FALSE, "-", "-", pos) EXCEPT !.fault = stop])
 SimSpec == SimInit /\ [][SimNext]_<<st, hist>>
 Emit == Len(hist) # D \/ PrintT(<<"BEH", hist>>)
 SimBound == Len(st.plan) <= MaxPlan /\ Len(hist) <= D
